@@ -19,7 +19,7 @@ func init() {
 			"and the authorization loader applies the same case analysis as the live saver (C06's sibling rule); LOAD-ORDER the constructor calls the loaders in dependency order (server keys, temporary key, GCA key, authorizations, archived weeks - which set the window offset -, reports), each only after the previous one succeeded; " +
 			"MONOTONE-LOAD a loader aborts start-up on a persisted record only for reasons that no later accepted operation can create: a failed verification under the write-once GCA key / the device's key; " +
 			"an abort on 'id not in the device table' is allowed only after the record's id was looked up in the ban set (every deletion from the device table adds the id to the ban set), so reports of a since-banned device are skipped instead of making the restart fail; " +
-			"the persisted encodings round-trip (C15). LOG every writer of a record log (authorizations, archived weeks, reports) appends or creates the file empty during construction; the report loader visits record i = 0,1,... while i < len/80 and, like every loop of the authorization and archive loaders, is left only at its end or by an error that aborts start-up. NOT decided: equality of the complete reloaded state with the pre-restart state as a behavioural claim over histories; live impact rates (not persisted by design). " +
+			"the persisted encodings round-trip (C15). LOG every writer of a record log (authorizations, archived weeks, reports) appends or creates the file empty during construction; the report loader visits record i = 0,1,... while i < len/80 and, like every loop of the authorization and archive loaders, is left only at its end or by an error that aborts start-up. ROUNDTRIP the decoder of each persisted record type reads exactly what its encoder writes; the rotation rules of C03 (record on disk in the critical section that archives it, failure stops the process, disk before offset advance) are re-run; the constructor starts the rotation (catch-up included) only after the reports were replayed; the id looked up in the ban set while loading is the record's own little-endian ShortID. NOT decided: equality of the complete reloaded state with the pre-restart state as a behavioural claim over histories; live impact rates (not persisted by design). " +
 			"Noted: replay re-appends each replayed, still-live report to the log (the observable state is equal, the file grows by at most one copy per restart).",
 		Assumptions: append([]string{"the durable files are written by this server only (README: data on disk is trusted)"}, baseAssumptions...),
 		Run:         runC04,
@@ -121,6 +121,10 @@ func runC04(c *an.Ctx) {
 	c.Check(okKey, "PERSIST", nil, 0, "key-writer", "the GCA key is written to gcaPubKey.dat (ordering decided by C07)", "writer protocols of gcaPubKey.dat")
 
 	loadOrder(c, ctor, roles)
+	// what is read back is what was written (sibling agreement of the persisted codecs; layouts are C15's)
+	roundTripPersisted(c)
+	// an archived week is appended to the file in the critical section that archives it (rules owned by C03)
+	rotateRules(c, contig(c, "CONTIG"))
 	replayRule(c, roles, construction)
 	for _, ld := range roles["allDeviceStats.dat"].loaders {
 		lfi := p.Info(ld)
@@ -228,6 +232,33 @@ func loadOrder(c *an.Ctx, ctor *ssa.Function, roles map[string]*fileRole) {
 	// the history loader sets the offset before the reports are integrated: CONTIG's loader shape
 	cg := contig(c, "CONTIG")
 	c.Check(len(cg.Loaders) > 0, "LOAD-ORDER", ctor, ctor.Pos(), "history-sets-offset", "loading the archived weeks re-establishes the window offset (offset = last week + 2016) before reports are replayed", "CONTIG loader shape")
+	// the start-up catch-up rotation runs only after the persisted reports were replayed (otherwise it archives empty
+	// weeks and the reports are then dropped as too old)
+	if rep := callOf("equipment-reports.dat"); rep != nil && len(cg.Rotations) > 0 {
+		for _, b := range ctor.Blocks {
+			for _, in := range b.Instrs {
+				call, ok := in.(*ssa.Call)
+				if !ok {
+					continue
+				}
+				sc := call.Call.StaticCallee()
+				if sc == nil || !an.IsRepoFunc(sc) {
+					continue
+				}
+				reach := p.SyncReach(sc)
+				rotates := false
+				for _, r := range cg.Rotations {
+					if reach[r] {
+						rotates = true
+					}
+				}
+				if !rotates {
+					continue
+				}
+				c.Check(an.Dominates(rep.top, call) && succeeded(fi, call, rep.top), "LOAD-ORDER", ctor, call.Pos(), an.KeyOf(ctor, "reports-before-catch-up"), "the constructor starts the rotation (start-up catch-up included) only after the persisted reports were loaded successfully", "call of "+an.FuncName(sc)+" is dominated by the successful report loader")
+			}
+		}
+	}
 }
 
 // replayRule: the report loader goes through the live parser and integrator.
@@ -438,6 +469,10 @@ func monotoneLoad(c *an.Ctx, roles map[string]*fileRole) {
 					// key = Uint32(rec[0:4]) : same buffer, lower bound equal to the record's lower bound, 4 bytes
 					if (kt.K == an.KPure || kt.K == an.KCall) && strings.HasSuffix(kt.Callee(), ".Uint32") && len(kt.A) == 2 && kt.A[1].K == an.KSlice {
 						ks := kt.A[1]
+						if !strings.Contains(kt.Callee(), "littleEndian") {
+							why = "the id looked up in the ban set is decoded with another byte order than the record's ShortID (little endian): it is not the record's id"
+							continue
+						}
 						if ks.A[0].Key() == rec.A[0].Key() && ks.A[1].Key() == rec.A[1].Key() {
 							guarded = true
 							why = "the id decoded from the first 4 bytes of the same record is known not to be banned: " + short(f.Key())
